@@ -6,6 +6,7 @@ package main
 // Driver: lean/Rv/Drv/CachePipe.lean (specification Rv.Spec.Cache.dupFlightOk).
 //
 //   !dupflight <kind> <store> <fail> <n> <returned> <nok> <nerr> <gets> <laterReturned> <laterHit> <laterOk> <laterGets>
+//   !mgetown <store> <fail>:<w> <wReturned> <wOk> <aOk> <laterHit> <laterOk> <fetchesOfA1>      (see mgetOwnEpisode)
 //
 // kind: dm2 = (GET a, GET a); dm3 = (GET a, GET b, GET a); st2 = (GET a, GET a) tagged ToStaticTTL
 // fail: ok | execnull | execabort | rediserr | moved | ctx | drop
@@ -333,10 +334,25 @@ func runFlightDup(c *Ctx) {
 	}
 	// episodes are independent (own server, own client): a few run side by side so that hanging ones
 	// (2 x 2.5 s of watchdog each, run twice) do not add up; results are emitted in case order
-	outs := make([]dupOut, len(cases))
+	var runs []func() dupOut
+	for _, tc := range cases {
+		runs = append(runs, func() dupOut { return dupEpisode(tc) })
+	}
+	// overlapping MGETs: a failing call must cancel only the flights it owns
+	for r := 0; r < rounds; r++ {
+		for _, simple := range []bool{false, true} {
+			for _, f := range []string{"ctx", "ctxdeadline", "execnull", "execabort", "rediserr"} {
+				for _, w := range []string{"wget", "wmget"} {
+					tc := mgetCase{simple: simple, fail: f, w: w}
+					runs = append(runs, func() dupOut { return mgetOwnEpisode(tc) })
+				}
+			}
+		}
+	}
+	outs := make([]dupOut, len(runs))
 	sem := make(chan struct{}, 8)
 	var wg sync.WaitGroup
-	for i := range cases {
+	for i := range runs {
 		wg.Add(1)
 		sem <- struct{}{}
 		go func(i int) {
@@ -344,7 +360,7 @@ func runFlightDup(c *Ctx) {
 			var notes []string
 			timeouts := 0
 			for attempt := 0; ; attempt++ {
-				outs[i] = dupEpisode(cases[i])
+				outs[i] = runs[i]()
 				if outs[i].retry && attempt < 5 {
 					notes = append(notes, "dup:inconclusive-run-repeated(outside caller too late / ctx expiry unnoticed)")
 					time.Sleep(50 * time.Millisecond)
@@ -377,4 +393,204 @@ func runFlightDup(c *Ctx) {
 			c.Fail(f[0], f[1], f[2])
 		}
 	}
+}
+
+// ---------------------------------------------------------------- overlapping MGETs (a failing call cancels only what it owns)
+
+type mgetCase struct {
+	simple bool
+	fail   string // ctx | ctxdeadline | execnull | execabort | rediserr : how B's own fetch of a2 ends
+	w      string // wget | wmget : the outside caller that joins a1 is DoCache(GET a1) / DoCache(MGET a1)
+}
+
+// mgetOwnEpisode: A = DoCache(MGET a1), its reply held on the server; W joins a1 (the per-key cache entry of an
+// MGET is the entry of GET); B = DoCache(MGET a1 a2) joins a1 and fetches a2 itself through the rewritten
+// `MGET a2`, and that fetch fails. B must not touch a1's flight: A and W get A's reply, a1 is cached
+// afterwards, a1 went over the wire once.
+//
+// Replies of one connection arrive in order, so B's failing REPLY (execnull, execabort, rediserr) can only arrive
+// after A's reply: in these variants A's reply is released first. Only a failure that needs no reply (B's ctx is
+// cancelled / expires while everything is held) happens while a1 is still pending: there A's reply is released
+// after B has returned.
+func mgetOwnEpisode(tc mgetCase) (out dupOut) {
+	store := storeName(tc.simple)
+	desc := fmt.Sprintf("mgetown %s %s %s", store, tc.fail, tc.w)
+	failf := func(key, op, format string, args ...any) {
+		out.fails = append(out.fails, [3]string{key, op, fmt.Sprintf(format, args...)})
+	}
+	srv := fakeredis.New(fakeredis.Options{})
+	defer srv.Close()
+	client, err := pipeClient(srv, tc.simple)
+	if err != nil {
+		failf("cachee2e:newclient", desc, "%v", err)
+		return
+	}
+	hung := false
+	defer func() {
+		if hung {
+			go client.Close()
+		} else {
+			client.Close()
+		}
+	}()
+	ctx := context.Background()
+	ttl := time.Minute
+	client.Do(ctx, client.B().Set().Key("a1").Value("a1|1").Build())
+	client.Do(ctx, client.B().Set().Key("a2").Value("a2|1").Build())
+	gate := make(chan struct{})
+	released := false
+	release := func() {
+		if !released {
+			released = true
+			close(gate)
+		}
+	}
+	defer release()
+	const abort = "EXECABORT Transaction discarded because of previous errors."
+	isExec := fakeredis.Cmd("EXEC")
+	srv.AddRule(fakeredis.Rule{Match: isExec, Times: 1, Gate: gate}) // A's transaction (one-shot rules fire in order)
+	switch tc.fail {
+	case "execnull":
+		srv.AddRule(fakeredis.Rule{Match: isExec, Times: 1, Exec: true, Reply: []byte("_\r\n")})
+	case "execabort":
+		srv.AddRule(fakeredis.Rule{Match: isExec, Times: 1, Exec: true, Err: abort})
+	case "rediserr":
+		srv.AddRule(fakeredis.Rule{Match: fakeredis.Cmd("MGET", "a2"), Times: 1, Err: "ERR boom"})
+		srv.AddRule(fakeredis.Rule{Match: isExec, Times: 1, Exec: true, Err: abort})
+	}
+	execs := func() (n int) {
+		for _, e := range srv.Log() {
+			if isExec(e.Conn, e.Argv) {
+				n++
+			}
+		}
+		return
+	}
+	type res struct {
+		val, err string
+		hit      bool
+	}
+	first := func(r rueidis.RedisResult, mget bool) res { // the value of a1 in the reply
+		if !mget {
+			v, err := r.ToString()
+			if err != nil {
+				return res{err: err.Error()}
+			}
+			return res{val: v, hit: r.IsCacheHit()}
+		}
+		arr, err := r.ToArray()
+		if err != nil {
+			return res{err: err.Error()}
+		}
+		if len(arr) == 0 {
+			return res{err: "empty MGET reply"}
+		}
+		v, err := arr[0].ToString()
+		if err != nil {
+			return res{err: err.Error()}
+		}
+		return res{val: v, hit: arr[0].IsCacheHit()}
+	}
+	readA1 := func(c context.Context, mget bool) res {
+		if mget {
+			return first(client.DoCache(c, client.B().Mget().Key("a1").Cache(), ttl), true)
+		}
+		return first(client.DoCache(c, client.B().Get().Key("a1").Cache(), ttl), false)
+	}
+	var aRes, wRes, bRes res
+	aDone, wDone, bDone := make(chan struct{}), make(chan struct{}), make(chan struct{})
+	go func() { aRes = readA1(context.Background(), true); close(aDone) }()
+	if !srv.WaitFor(5*time.Second, func() bool { return execs() >= 1 }) {
+		out.retry = true
+		failf("cachee2e:harness:batch-not-sent", desc, "A's request did not reach the server")
+		return
+	}
+	started := make(chan struct{})
+	go func() { close(started); wRes = readA1(context.Background(), tc.w == "wmget"); close(wDone) }()
+	<-started
+	time.Sleep(40 * time.Millisecond)
+	bctx, cancel := context.WithCancel(ctx)
+	if tc.fail == "ctxdeadline" {
+		cancel()
+		bctx, cancel = context.WithTimeout(ctx, 250*time.Millisecond)
+	}
+	defer cancel()
+	go func() {
+		bRes = first(client.DoCache(bctx, client.B().Mget().Key("a1", "a2").Cache(), ttl), true)
+		close(bDone)
+	}()
+	bGone := func() bool {
+		select {
+		case <-bDone:
+			return true
+		default:
+			return false
+		}
+	}
+	if !srv.WaitFor(5*time.Second, func() bool { return execs() >= 2 || bGone() }) || execs() < 2 {
+		out.retry = true // (starved machine: B's deadline passed before it could send)
+		failf("cachee2e:harness:batch-not-sent", desc, "B's request did not reach the server: %v", srv.Log())
+		return
+	}
+	time.Sleep(20 * time.Millisecond)
+	wait := func(ch chan struct{}) bool {
+		select {
+		case <-ch:
+			return true
+		case <-time.After(dupWatchdog):
+			return false
+		}
+	}
+	bReturned := true
+	switch tc.fail {
+	case "ctx":
+		cancel()
+		bReturned = wait(bDone) // B gives up while a1 is still in flight ...
+		release()               // ... then A's reply arrives
+	case "ctxdeadline":
+		bReturned = wait(bDone)
+		release()
+	default:
+		release() // A's reply, then B's failing reply
+		bReturned = wait(bDone)
+	}
+	aReturned, wReturned := wait(aDone), wait(wDone)
+	hung = !(aReturned && wReturned && bReturned)
+	// the LATER read of a1
+	var later res
+	laterReturned := true
+	if !hung {
+		lctx, lcancel := context.WithTimeout(ctx, dupWatchdog)
+		later = readA1(lctx, tc.w == "wmget")
+		lcancel()
+		laterReturned = !strings.Contains(later.err, context.DeadlineExceeded.Error())
+	}
+	fetches := 0
+	for _, e := range srv.Log() {
+		if len(e.Argv) >= 2 && (strings.EqualFold(e.Argv[0], "GET") || strings.EqualFold(e.Argv[0], "MGET")) {
+			for _, k := range e.Argv[1:] {
+				if k == "a1" {
+					fetches++
+				}
+			}
+		}
+	}
+	wOk := wReturned && wRes.err == "" && wRes.val == "a1|1"
+	aOk := aReturned && aRes.err == "" && aRes.val == "a1|1"
+	laterOk := !hung && later.err == "" && later.val == "a1|1"
+	op := fmt.Sprintf("!mgetown %s %s:%s %s %s %s %s %s %d", store, tc.fail, tc.w, b01(wReturned), b01(wOk), b01(aOk), b01(later.hit), b01(laterOk), fetches)
+	out.line = op
+	out.hits = append(out.hits, "mgetown:"+tc.fail+":"+tc.w)
+	detail := fmt.Sprintf("A (MGET a1, owner) %+v; W (%s, joined) %+v; B (MGET a1 a2, joined a1, own fetch of a2 ended as %s) %+v; later read %+v; a1 went over the wire %d time(s)", aRes, tc.w, wRes, tc.fail, bRes, later, fetches)
+	switch {
+	case hung || !laterReturned:
+		out.timeout = true
+		failf("cachee2e:flight-hang:mget-joined-key", op, "%s: returned within %v: A %v, W %v, B %v, later read %v", desc, dupWatchdog, aReturned, wReturned, bReturned, laterReturned)
+	case !(wOk && aOk && later.hit && laterOk && fetches == 1):
+		failf("cachee2e:flight-stolen:mget-joined-key", op, "%s: %s", desc, detail)
+	}
+	if bReturned && bRes.err == "" {
+		failf("cachee2e:harness:mgetown-b-did-not-fail", op, "%s: B returned %+v", desc, bRes)
+	}
+	return
 }
